@@ -1,6 +1,6 @@
 (* C04 GraphColoring: for every reachable-shaped state (Inv) and every colour of the action space, the mask
    entry is True exactly when no neighbour of the current node already has that colour. *)
-Require Import JV.Base.Prelude JV.Base.JaxIndex JV.Base.Codec JV.Base.TimeStep JV.Model.GraphColoring JV.Proofs.GraphColoring.
+Require Import JV.Base.Prelude JV.Base.JaxIndex JV.Base.Codec JV.Base.TimeStep JV.Model.GraphColoring JV.Proofs.GraphColoring JV.Proofs.GraphColoring_rules.
 Theorem C04_GraphColoring_mask_iff_legal n s c :
   0 < n -> Inv n s -> 0 <= c < n ->
   (jget false (amask s) c = true <-> legal n (adj s) (colors s) (cur s) c).
@@ -14,6 +14,23 @@ Theorem C04_GraphColoring_inv_step n s a :
   st (snd (step n s a)) = MID -> Inv n (fst (step n s a)).
 Proof. exact (step_preserves_Inv n s a). Qed.
 Print Assumptions C04_GraphColoring_inv_step.
+(* the same on the weak invariant Inv0 (Inv without properness), which holds at reset and is closed under EVERY in-spec
+   colour - legal or not, terminal step or not, also when stepping on after LAST: the mask is exact on every state the
+   environment can emit, and the whole mask IS the list of legal colours *)
+Theorem C04_GraphColoring_mask_iff_legal_every_state n s c :
+  0 < n -> Inv0 n s -> 0 <= c < n ->
+  (jget false (amask s) c = true <-> legal n (adj s) (colors s) (cur s) c).
+Proof. exact (mask_iff_legal0 n s c). Qed.
+Theorem C04_GraphColoring_mask_is_legal_set n adj colors node :
+  0 < n -> graph_wf n adj -> colors_wf n colors -> 0 <= node < n ->
+  valid_actions n node adj colors = map (legal_b n adj colors node) (zrange n).
+Proof. exact (mask_is_legal_set n adj colors node). Qed.
+Theorem C04_GraphColoring_inv0_init n adj0 : 0 < n -> graph_wf n adj0 -> Inv0 n (fst (init n adj0)).
+Proof. exact (init_Inv0 n adj0). Qed.
+Theorem C04_GraphColoring_inv0_step n s a : 0 < n -> Inv0 n s -> 0 <= a < n -> Inv0 n (fst (step n s a)).
+Proof. exact (step_preserves_Inv0 n s a). Qed.
+Print Assumptions C04_GraphColoring_mask_iff_legal_every_state.
+Print Assumptions C04_GraphColoring_inv0_step.
 (* the boolean checker run on implementation states decides the same predicate *)
 Theorem C04_GraphColoring_checker n adj colors i c : legal_b n adj colors i c = true <-> legal n adj colors i c.
 Proof. exact (legal_b_spec n adj colors i c). Qed.
